@@ -38,10 +38,15 @@ def whyStr : Why → String
 def outcomeStr : Outcome → String
   | .wait => "wait"
   | .served pid td => s!"served:{pid}:{b01 td}"
-  | .reject why q => s!"reject:{whyStr why}:{blStr q}"
+  | .reject why _ => s!"reject:{whyStr why}"
   | .data pid => s!"data:{pid}"
   | .ignored => "ignored"
   | .escaped pid => s!"escaped:{pid}"
+
+/-- what the handler itself queued -/
+def handlerQueued : Outcome → List Bytes
+  | .reject _ q => q
+  | _ => []
 
 def isParseReject : Outcome → Bool
   | .reject (.parse _) _ => true
@@ -55,7 +60,7 @@ def obsSeg (cfg : Cfg) (st : St) (data : Bytes) : St × String :=
       let st' := (tick cfg st data).1
       -- after a parse exception the Python object is left half-updated: not compared
       let ps := if isParseReject o then "st=? tot=?" else s!"st={st'.request.state.num} tot={st'.request.totalSize}"
-      (st', s!"o={outcomeStr o} q={blStr st'.buffer} ret={b01 r} mf={b01 st'.mustFlush} td={b01 st'.teardown} " ++
+      (st', s!"o={outcomeStr o} hq={blStr (handlerQueued o)} q={blStr st'.buffer} ret={b01 r} mf={b01 st'.mustFlush} td={b01 st'.teardown} " ++
             s!"esc={b01 st'.escaped} ri={b01 (reading st')} {ps}")
   else (st, "o=unread")
 
